@@ -50,7 +50,9 @@ VFwd == << F("for=192.0.2.1", "ok", "192.0.2.1", "", "", "", ""),
            F("for", "bad", "", "", "", "", ""), F("for=192.0.2.1; host=padded.example", "bad", "", "", "", "", ""),
            F("for= 192.0.2.1", "bad", "", "", "", "", ""), F("for=\"192.0.2", "bad", "", "", "", "", ""),
            F("proto=ftp", "bads", "", "", "", "", ""), F("host=:80", "bads", "", "", "", "", ""),
-           F("", "free", "", "", "", "", ""), F("for=:80", "free", "", "", "", "", ""), F("for=\" \"", "free", "", "", "", "", ""),
+           (* an empty list element is a hop that says nothing: it is counted like any other element, so that what
+              stands to the left of the trusted hops can never be selected *)
+           F("", "ok", "", "", "", "", ""), F("for=:80", "free", "", "", "", "", ""), F("for=\" \"", "free", "", "", "", "", ""),
            F("for=[", "free", "", "", "", "", ""), F(";", "free", "", "", "", "", ""), F("for=_hidden;proto=https;host=", "free", "", "", "", "", "") >>
 
 Vocab == [xff |-> VFor, xfh |-> VHost, xfproto |-> VProto, xfport |-> VPort, fwd |-> VFwd]
